@@ -200,7 +200,9 @@ func createCompiledRouteHandler(route *ast.Route, bytecode []byte, wsHub *websoc
 
 				var bodyMap map[string]interface{}
 				decoder := json.NewDecoder(limitedReader)
-				if err := decoder.Decode(&bodyMap); err == nil {
+				// The JSON text `null` decodes without error into a nil map: it is
+				// not an object, and is treated like any other non-object body.
+				if err := decoder.Decode(&bodyMap); err == nil && bodyMap != nil {
 					// Validate against the declared input type, as the
 					// interpreter path does. Without this a compiled route
 					// accepts any body at all: `< input: NewUser` was enforced
@@ -387,9 +389,12 @@ func executeRoute(route *ast.Route, ctx *server.Context, interp *interpreter.Int
 
 			var bodyMap map[string]interface{}
 			decoder := json.NewDecoder(limitedReader)
-			if err := decoder.Decode(&bodyMap); err != nil {
+			if err := decoder.Decode(&bodyMap); err != nil || bodyMap == nil {
 				// If parsing fails, treat as empty body (could be empty or malformed)
-				// Don't return error - just set to nil
+				// Don't return error - just set to nil.
+				// The JSON text `null` decodes into a nil map without an error;
+				// passing that on gave the route an input that was "not null" yet
+				// printed as null, where a compiled route saw an empty object.
 				requestBody = nil
 			} else {
 				requestBody = bodyMap
